@@ -5,7 +5,7 @@
    A builder result is (counts, probabilities, populations-or-None); None = the input is rejected.
    vecmat pi T j is entry j of the row vector pi*T; pops X = rowsum X / sum X. *)
 From Coq Require Import List QArith.
-From EV Require Import Builders BuildersProofs BuildersUnique.
+From EV Require Import Builders BuildersProofs BuildersUnique BuildersBase BuildersGen BuildersGenProofs.
 Import ListNotations.
 Open Scope Q_scope.
 
@@ -260,3 +260,140 @@ Print Assumptions c04_example_mle.
 Example c04_example_irreducible : irreducible (row_normalize [[5; 2; 1]; [1; 4; 0]; [2; 1; 6]]).
 Proof. exact T3_irreducible. Qed.
 Print Assumptions c04_example_irreducible.
+
+(* ==== Round 2: the model is tied to the source by translation.  Gen/BuildersGen.v is regenerated by
+   translator/tr_builders.py from the CURRENT enspara/msm/builders.py (_apply_prior_counts,
+   _row_normalize, normalize, transpose, mle, prologue/guards/final step of _prinz_mle_py) and
+   transition_matrices.eq_probs, statement by statement, over the array vocabulary of
+   Base/BuildersBase.v (an array = container kind + numbers).  gen_result r = the numbers of a
+   generated builder's result (None if it raises); kinds r = the container kinds of its counts and
+   probabilities.  The theorems hold for every container kind except np.matrix input. *)
+
+(* ---- _apply_prior_counts as written (try C + prior / except NotImplementedError: densify; recast
+        np.matrix) ADDS the prior (number or matrix) to the counts, and rejects what the model rejects *)
+Theorem c04_gen_apply_prior : forall C p,
+  is_square (a_val C) = true -> a_kind C <> KMat ->
+  gen_apply_prior_counts C p
+  = match apply_prior (a_val C) p with
+    | Some C1 => Ok (mkarr (prior_kind (a_kind C) p) C1)
+    | None => Err
+    end.
+Proof. exact gen_apply_prior_eq. Qed.
+Print Assumptions c04_gen_apply_prior.
+
+(* ---- _row_normalize as written: both the sparse branch (diag(inv_weights) . C_csr) and the dense branch
+        (C * inv_weights[:, None]), with row sums over axis 1 and the weights > 0 guard, compute the
+        model's row_normalize; the result is a fresh matrix of the caller's sparse type / an ndarray *)
+Theorem c04_gen_row_normalize : forall C,
+  gen_row_normalize C = Ok (mkarr (rownorm_kind (a_kind C)) (row_normalize (a_val C))).
+Proof. exact gen_row_normalize_eq. Qed.
+Print Assumptions c04_gen_row_normalize.
+
+(* ---- normalize as written (prior first, then _row_normalize of the result, eq_probs called on the
+        probabilities themselves) is the model's normalize_builder, for dense and every sparse input *)
+Theorem c04_gen_normalize : forall C p eq,
+  is_square (a_val C) = true -> a_kind C <> KMat ->
+  gen_result (gen_normalize (gen_eq_probs exact_eig) C p eq) = normalize_builder (a_val C) p eq.
+Proof. exact gen_normalize_full_eq. Qed.
+Print Assumptions c04_gen_normalize.
+
+(* ---- transpose as written (prior first; C + C.T in CSR or dense; row-normalise the SYMMETRISED
+        counts; populations = its row sums over its total; counts halved) is the model's transpose_builder *)
+Theorem c04_gen_transpose : forall C p eq,
+  is_square (a_val C) = true -> a_kind C <> KMat ->
+  gen_result (gen_transpose C p eq) = transpose_builder (a_val C) p eq.
+Proof. exact gen_transpose_eq. Qed.
+Print Assumptions c04_gen_transpose.
+
+(* ---- mle as written (prior first, densify, _prinz_mle_py with its two guards, T = X / rowsum X and
+        pi = X_rs / sum X_rs, the two closing asserts) is the model's mle_builder, when the iteration
+        (property C12) ends with a square matrix X with positive row sums and X_rs = its row sums *)
+Theorem c04_gen_mle : forall X C p eq,
+  is_square (a_val C) = true -> a_kind C <> KMat ->
+  is_square X = true -> X <> [] -> rows_positive X = true ->
+  gen_result (gen_mle (gen_prinz_mle_py (loop_gives X)) C p eq) = mle_builder (a_val C) p eq X.
+Proof. exact gen_mle_eq. Qed.
+Print Assumptions c04_gen_mle.
+
+(* ---- clause "outputs come back in the container type that was passed in (adding prior counts to a
+        sparse matrix legitimately densifies it)": counts and probabilities have the kind
+        prior_kind (input kind) prior = the input kind, or ndarray when a non-zero number / an ndarray
+        was added to a sparse matrix -- never np.matrix *)
+Theorem c04_gen_transpose_kinds : forall C p eq r,
+  is_square (a_val C) = true -> a_kind C <> KMat -> gen_transpose C p eq = Ok r ->
+  kinds (Ok r) = Some (prior_kind (a_kind C) p, prior_kind (a_kind C) p).
+Proof. exact gen_transpose_kinds. Qed.
+Print Assumptions c04_gen_transpose_kinds.
+
+Theorem c04_gen_normalize_kinds : forall eqp C p eq r,
+  is_square (a_val C) = true -> a_kind C <> KMat -> gen_normalize eqp C p eq = Ok r ->
+  kinds (Ok r) = Some (prior_kind (a_kind C) p, rownorm_kind (prior_kind (a_kind C) p)).
+Proof. exact gen_normalize_kinds. Qed.
+Print Assumptions c04_gen_normalize_kinds.
+
+Theorem c04_gen_mle_kinds : forall prinz C p eq r,
+  is_square (a_val C) = true -> a_kind C <> KMat -> gen_mle prinz C p eq = Ok r ->
+  kinds (Ok r) = Some (prior_kind (a_kind C) p, prior_kind (a_kind C) p).
+Proof. exact gen_mle_kinds. Qed.
+Print Assumptions c04_gen_mle_kinds.
+
+Theorem c04_prior_kind_never_npmatrix : forall k p, k <> KMat -> prior_kind k p <> KMat.
+Proof. exact prior_kind_not_mat. Qed.
+Print Assumptions c04_prior_kind_never_npmatrix.
+
+(* ---- eq_probs as written guards the eigen-solver: for sparse T the vector is handed on only if
+        |pi T - pi| <= 1e-8 entry-wise, otherwise the dense solver is asked (repo fix fba1408) *)
+Theorem c04_eq_probs_guard : forall eig T pi,
+  gen_eq_probs eig T = Ok pi ->
+  (is_sparse T = false /\ eig T = Some pi) \/
+  (is_sparse T = true /\ eig T = Some pi /\ v_allclose2 atol8 (v_matmul pi T) pi = true) \/
+  (is_sparse T = true /\ eig (a_toarray T) = Some pi).
+Proof. exact gen_eq_probs_guard. Qed.
+Print Assumptions c04_eq_probs_guard.
+
+(* ---- hence: if the dense solver returns stationary probability vectors, eq_probs' answer is stationary
+        to 1e-8 per entry WHATEVER the sparse solver (ARPACK) returned *)
+Theorem c04_eq_probs_sound_whatever_arpack : forall eig T pi,
+  (forall D v, is_sparse D = false -> eig D = Some v -> is_stationary_b (a_val D) v = true) ->
+  gen_eq_probs eig T = Ok pi ->
+  v_allclose2 atol8 (v_matmul pi T) pi = true.
+Proof. exact gen_eq_probs_sound. Qed.
+Print Assumptions c04_eq_probs_sound_whatever_arpack.
+
+(* ---- end to end on the translated source: transpose as written returns the symmetrised counts and a
+        (T, populations) pair in detailed balance and stationary, for dense and every sparse input *)
+Theorem c04_gen_transpose_reversible : forall C p C' T pi,
+  is_square (a_val C) = true -> a_kind C <> KMat -> nonneg_mat (a_val C) -> nonneg_prior p ->
+  gen_transpose C p true = Ok (C', T, Some pi) ->
+  let n := length (a_val C) in
+  (forall i j, (i < n)%nat -> (j < n)%nat -> ent (a_val C') i j
+     == ((ent (a_val C) i j + prior_ent p i j) + (ent (a_val C) j i + prior_ent p j i)) / 2) /\
+  (forall i j, (i < n)%nat -> (j < n)%nat -> nth i pi 0 * ent (a_val T) i j == nth j pi 0 * ent (a_val T) j i) /\
+  (forall j, (j < n)%nat -> vecmat pi (a_val T) j == nth j pi 0).
+Proof. exact gen_transpose_reversible. Qed.
+Print Assumptions c04_gen_transpose_reversible.
+
+(* ---- normalize as written, eigen-solvers abstract: the returned populations satisfy
+        |pi T - pi| <= 1e-8 entry-wise whatever ARPACK returned, if the dense solver's vectors are stationary *)
+Theorem c04_gen_normalize_pi_sound : forall eig C p C' T pi,
+  (forall D v, is_sparse D = false -> eig D = Some v -> is_stationary_b (a_val D) v = true) ->
+  gen_normalize (gen_eq_probs eig) C p true = Ok (C', T, Some pi) ->
+  v_allclose2 atol8 (v_matmul pi T) pi = true.
+Proof. exact gen_normalize_pi_sound. Qed.
+Print Assumptions c04_gen_normalize_pi_sound.
+
+(* Non-vacuity of round 2: the generated builders run on a sparse (coo_matrix) input *)
+Example c04_example_gen_transpose :
+  exists C' T pi,
+    gen_transpose (mkarr (KSp false Coo) [[5; 2; 1]; [1; 4; 0]; [2; 1; 6]]) (PScalar (1 # 2)) true = Ok (C', T, Some pi) /\
+    a_kind C' = KArr /\ a_kind T = KArr /\ ent (a_val C') 0 1 == 2 /\ ent (a_val T) 1 2 == 2 # 15 /\ nth 0 pi 0 == 19 # 53.
+Proof. eexists _, _, _. split; [vm_compute; reflexivity|]. vm_compute. repeat split; reflexivity. Qed.
+Print Assumptions c04_example_gen_transpose.
+
+Example c04_example_gen_kinds :
+  kinds (gen_transpose (mkarr (KSp true Coo) [[5; 2; 1]; [1; 4; 0]; [2; 1; 6]]) NoPrior false) = Some (KSp true Coo, KSp true Coo) /\
+  kinds (gen_normalize exact_eqp (mkarr (KSp false Dia) [[5; 2; 1]; [1; 4; 0]; [2; 1; 6]]) (PScalar 0) false)
+    = Some (KSp false Dia, KSp false Dia) /\
+  is_square [[10; 3; 3]; [3; 8; 1]; [3; 1; 12]] = true /\ rows_positive [[10; 3; 3]; [3; 8; 1]; [3; 1; 12]] = true.
+Proof. vm_compute. repeat split; reflexivity. Qed.
+Print Assumptions c04_example_gen_kinds.
